@@ -117,6 +117,9 @@ let handle (w : string list) : string =
   | "send" :: msg :: rest ->
     toks := rest; let s = p_sock () in
     show_res s_sock (dlc_send s (bytes_of_hex msg))
+  | ["learn"; v] -> zs (learn_miu (if v = "-" then None else Some (zi v)))
+  | "learnconn" :: miu :: v :: rest ->
+    toks := rest; let s = p_sock () in s_sock (learn_conn_miu (zi miu) (if v = "-" then None else Some (zi v)) s)
   | "clamp" :: miu :: rest ->
     toks := rest; let s = p_sock () in s_sock (llc_clamp_miu (zi miu) s)
   | _ -> "?unknown-command"
